@@ -31,7 +31,17 @@ def r1(ctx: Ctx) -> None:
     def adds(n) -> bool:
         return n.kind == "stmt" and any(isinstance(c, ast.Call) and call_name(c) == "add_clause" for c in ast.walk(n.ast))
     # allowed silent edge: false edge of the test '<ineq>.clause is not None' reached after isclause() is true
-    silent_tests = [n for n in g.stmt_nodes() if n.kind == "test" and "clause" in ast.unparse(n.ast.test) and "None" in ast.unparse(n.ast.test)]
+    cn = g.canon()
+    has_clause = ("cmp", "isnot", ("a", ("p", 0), "clause"), K_NONE)
+    silent_edge = {}      # test node -> the polarity of the edge on which there is nothing to post
+    for n in g.stmt_nodes():
+        if n.kind == "test":
+            ce = cn.expr(n.ast.test)
+            if ce == has_clause:
+                silent_edge[n.id] = False
+            elif ce == mk_not(has_clause):
+                silent_edge[n.id] = True
+    silent_tests = list(silent_edge)
     seen, todo, leak = set(), [ENTRY], False
     while todo:
         x = todo.pop()
@@ -44,7 +54,7 @@ def r1(ctx: Ctx) -> None:
         for e in g.succ.get(x, []):
             if adds(g.nodes[e.dst]):
                 continue
-            if e.cond is not None and g.nodes[x] in silent_tests and e.cond[1] is False:
+            if e.cond is not None and x in silent_edge and e.cond[1] is silent_edge[x]:
                 continue      # the tautology: nothing to post
             todo.append(e.dst)
     ctx.site(f.where, "every non-tautology path posts a clause (or raises)", silent_tests=len(silent_tests))
@@ -350,15 +360,33 @@ def _construction_suffix(ctx: Ctx, decomposed: bool) -> str:
     fg = ctx.func(PB, "Ineq.getrobdd")
     found = {}
 
+    assigns = {}
+    for n in walk_own(fg.node):
+        if isinstance(n, ast.Assign) and len(n.targets) == 1 and isinstance(n.targets[0], ast.Name):
+            assigns.setdefault(n.targets[0].id, []).append(n.value)
+
+    def test_of(t):
+        """(is the test on coefficientdecomposition, negated) looking through 'not' and a single-assignment local"""
+        neg = False
+        for _ in range(6):
+            if isinstance(t, ast.UnaryOp) and isinstance(t.op, ast.Not):
+                t, neg = t.operand, not neg
+            elif isinstance(t, ast.Name) and t.id != "coefficientdecomposition" and len(assigns.get(t.id, [])) == 1:
+                t = assigns[t.id][0]
+            else:
+                break
+        return isinstance(t, ast.Name) and t.id == "coefficientdecomposition", neg
+
     def rec(stmts, pol):
-        for st in stmts:
+        for k, st in enumerate(stmts):
             if isinstance(st, ast.If):
-                t, neg = st.test, False
-                while isinstance(t, ast.UnaryOp) and isinstance(t.op, ast.Not):
-                    t, neg = t.operand, not neg
-                if isinstance(t, ast.Name) and t.id == "coefficientdecomposition":
+                on_cd, neg = test_of(st.test)
+                if on_cd:
                     rec(st.body, not neg)
                     rec(st.orelse, neg)
+                    if not st.orelse and st.body and isinstance(st.body[-1], (ast.Return, ast.Raise)):
+                        rec(stmts[k + 1:], neg)      # the rest of the block is the other arm
+                        return
                 else:
                     rec(st.body, pol)
                     rec(st.orelse, pol)
@@ -479,8 +507,8 @@ def r9(ctx: Ctx) -> None:
            ("if", mk_not(("a", lit, "s")), (("ret", (Poly.const(1) - to_poly(mv)).to_s()),), ()), ("ret", mv))
     ctx.site(fv.where, "value(lit) == model[v] for positive, 1 - model[v] for negative literals")
     from framelint.peval import paths as _paths
-    outs = {(tuple(sorted(l, key=skey)), o) for l, o in _paths(cv)}
-    wouts = {(tuple(sorted(l, key=skey)), o) for l, o in _paths(want)}
+    outs = {(tuple(sorted(l, key=skey)), o) for l, o in _paths(cv, fall=K_NONE)}
+    wouts = {(tuple(sorted(l, key=skey)), o) for l, o in _paths(want, fall=K_NONE)}
     if outs != wouts:
         ctx.report(fv.where, "value-decode", "value() is not 'model[v] if positive else 1 - model[v]' (None when unsolved)", lineno=fv.node.lineno)
     fe = ctx.func(SATM, "SATManager.evalexpr")
